@@ -6,6 +6,8 @@
  *   setnum <key> <value>          > set <status>
  *   probe <as> <addr> <ps>        > <status> <hex | ->
  *   read <as> <addr> <len>        > <status> <len> <fnv>
+ *   rdc <as> <addr> <len>         > <status> <len> <crc32>          (C01)
+ *   L <anything>                  layout line for the model driver, ignored here
  *   bits <file|mem> <first> <last>  > bits <status> <hex>
  *   fset|fclr <file|mem> <idx>    > fset|fclr <status> <idx>
  *   close
@@ -16,6 +18,7 @@
  */
 #include <fcntl.h>
 #include <unistd.h>
+#include <zlib.h>
 #include "hcommon.h"
 
 #define MAXF 16
@@ -136,7 +139,16 @@ static void run_cmd(kdump_ctx_t *ctx, char *line)
 			printf("> %.4s %s %" PRIu64 "%s\n", line, kstatus_name(st), st == KDUMP_OK ? (uint64_t)idx : 0,
 			       (st != KDUMP_OK && !*kdump_bmp_get_err(at.val.bitmap)) ? " C16:empty-message" : "");
 		}
-	} else if (!strncmp(line, "dd", 2) || !strncmp(line, "msb0", 4) || !strncmp(line, "elf ", 4) || !strncmp(line, "seg ", 4)) {
+	} else if (sscanf(line, "rdc %u %" SCNu64 " %" SCNu64, &as, &a, &b) == 3) {
+		/* C01: like `read`, but the digest is CRC-32 (cheap to recompute for the oracle); the buffer is
+		 * pre-filled so that bytes the library does not deliver cannot pass for data */
+		size_t n = b; unsigned char *buf = malloc(n ? n : 1);
+		kdump_status st;
+		memset(buf, 0xA5, n ? n : 1);
+		st = kdump_read(ctx, as, a, buf, &n);
+		printf("> %s %zu %lu%s\n", kstatus_name(st), n, n <= b ? (unsigned long)crc32(0L, buf, n) : 0UL, c16_monitor(ctx, st));
+		free(buf);
+	} else if (!strncmp(line, "L ", 2) || !strncmp(line, "dd", 2) || !strncmp(line, "msb0", 4) || !strncmp(line, "elf ", 4) || !strncmp(line, "seg ", 4)) {
 		;       /* layout description for the model */
 	} else if (!strcmp(line, "tree")) {
 		kdump_attr_ref_t root;
